@@ -17,6 +17,7 @@ def main():
     if len(sys.argv) > 2 and sys.argv[2] == "--from":
         src = sys.argv[3]
     checks = None
+    meta_only = "--recheck" in sys.argv   # skip the confirmation stage (already recorded), re-run the checks only
     for a in sys.argv[2:]:
         if a.startswith("--checks="):
             checks = a.split("=")[1].split(",")
@@ -26,44 +27,65 @@ def main():
         if os.path.exists(os.path.join(src, f)):
             shutil.copy(os.path.join(src, f), os.path.join(dst, f))
     meta = {"id": sid, "ran": []}
-    wt = "/tmp/confirm_%s" % sid
-    sh("git -C /repo worktree remove --force %s" % wt)
-    rc, out = sh("git -C /repo worktree add --detach %s HEAD" % wt)
-    assert rc == 0, out
-    try:
-        os.makedirs(wt + "/examples", exist_ok=True)
-        shutil.copy(os.path.join(dst, "demo.rs"), wt + "/examples/seed_demo.rs")
-        rc0, out0 = sh("cargo run --offline --quiet --example seed_demo", cwd=wt)
-        meta["demo_without_change"] = "pass" if rc0 == 0 else "FAIL rc=%d" % rc0
-        rc, out = sh("git apply %s" % os.path.join(dst, "patch.diff"), cwd=wt)
-        meta["patch_applies"] = rc == 0
-        if rc != 0:
-            meta["apply_error"] = out[-500:]
-        rc1, out1 = sh("cargo run --offline --quiet --example seed_demo", cwd=wt)
-        meta["demo_with_change"] = "fails (rc=%d)" % rc1 if rc1 != 0 else "PASSES"
-        meta["demo_failure_message"] = [l for l in out1.split("\n") if "panicked" in l or "MISMATCH" in l or "assert" in l][:3]
-        os.remove(wt + "/examples/seed_demo.rs")
-        rc2, out2 = sh("cargo test --workspace --no-fail-fast --offline 2>&1 | grep -E '^test result' | head -1", cwd=wt)
-        meta["test_suite_with_change"] = out2.strip()
-        meta["ran"] += ["cargo run --example seed_demo (without / with patch)", "cargo test --workspace --no-fail-fast --offline (with patch)"]
-    finally:
+    if meta_only and os.path.exists(os.path.join(dst, "eval.json")):
+        meta = json.load(open(os.path.join(dst, "eval.json")))
+    else:
+        wt = "/tmp/confirm_%s" % sid
         sh("git -C /repo worktree remove --force %s" % wt)
-        shutil.rmtree(wt, ignore_errors=True)
+        rc, out = sh("git -C /repo worktree add --detach %s HEAD" % wt)
+        assert rc == 0, out
+        try:
+            os.makedirs(wt + "/examples", exist_ok=True)
+            shutil.copy(os.path.join(dst, "demo.rs"), wt + "/examples/seed_demo.rs")
+            rc0, out0 = sh("cargo run --offline --quiet --example seed_demo", cwd=wt)
+            meta["demo_without_change"] = "pass" if rc0 == 0 else "FAIL rc=%d" % rc0
+            rc, out = sh("git apply %s" % os.path.join(dst, "patch.diff"), cwd=wt)
+            meta["patch_applies"] = rc == 0
+            if rc != 0:
+                meta["apply_error"] = out[-500:]
+            rc1, out1 = sh("cargo run --offline --quiet --example seed_demo", cwd=wt)
+            meta["demo_with_change"] = "fails (rc=%d)" % rc1 if rc1 != 0 else "PASSES"
+            meta["demo_failure_message"] = [l for l in out1.split("\n") if "panicked" in l or "MISMATCH" in l or "assert" in l][:3]
+            os.remove(wt + "/examples/seed_demo.rs")
+            rc2, out2 = sh("cargo test --workspace --no-fail-fast --offline 2>&1 | grep -E '^test result' | head -1", cwd=wt)
+            meta["test_suite_with_change"] = out2.strip()
+            meta["ran"] += ["cargo run --example seed_demo (without / with patch)", "cargo test --workspace --no-fail-fast --offline (with patch)"]
+        finally:
+            sh("git -C /repo worktree remove --force %s" % wt)
+            shutil.rmtree(wt, ignore_errors=True)
     # now against the checks
-    rc, out = sh("git -C /repo status --short -- src")
-    assert out.strip() == "", "repo not clean: " + out
-    rc, out = sh("git -C /repo apply %s" % os.path.join(dst, "patch.diff"))
-    assert rc == 0, out
+    iso = "--iso" in sys.argv
     caught = {}
+    if iso:
+        # isolated: a scratch worktree with the patch + a scratch copy of the harness built against it (several seeds can be
+        # evaluated at the same time and /repo stays untouched); the checks read VERIF_REPO_DIR / VERIF_HARNESS_DIR
+        slot = "/tmp/slot_%s" % sid
+        shutil.rmtree(slot, ignore_errors=True)
+        os.makedirs(slot)
+        sh("git -C /repo worktree remove --force %s/repo" % slot)
+        rc, out = sh("git -C /repo worktree add --detach %s/repo HEAD" % slot)
+        assert rc == 0, out
+        rc, out = sh("git apply %s" % os.path.join(dst, "patch.diff"), cwd=slot + "/repo")
+        assert rc == 0, out
+        shutil.copytree(os.path.join(V, "harness"), slot + "/harness", ignore=shutil.ignore_patterns("target"))
+        ct = open(slot + "/harness/Cargo.toml").read().replace('path = "/repo"', 'path = "%s/repo"' % slot)
+        open(slot + "/harness/Cargo.toml", "w").write(ct)
+        envp = "VERIF_REPO_DIR=%s/repo VERIF_HARNESS_DIR=%s/harness " % (slot, slot)
+    else:
+        rc, out = sh("git -C /repo status --short -- src")
+        assert out.strip() == "", "repo not clean: " + out
+        rc, out = sh("git -C /repo apply %s" % os.path.join(dst, "patch.diff"))
+        assert rc == 0, out
+        envp = ""
     try:
         pids = checks or ["C%02d" % i for i in range(1, 19)]
         for pid in pids:
             t = time.time()
             # first pass without the deeper search (fast); the property the seed was written against gets the search as
             # well when the first pass misses it
-            rc, out = sh("VERIF_NO_SEARCH=1 ./check %s --tier quick --no-evidence" % pid, cwd=V)
+            rc, out = sh(envp + "VERIF_NO_SEARCH=1 ./check %s --tier quick --no-evidence%s" % (pid, " --no-lean" if iso else ""), cwd=V)
             if not any(l.startswith("VIOLATION") and "no-failing-input-found" not in l for l in out.split("\n")) and pid == sid[:3]:
-                rc, out = sh("./check %s --tier quick --no-evidence" % pid, cwd=V)
+                rc, out = sh(envp + "./check %s --tier quick --no-evidence%s" % (pid, " --no-lean" if iso else ""), cwd=V)
                 searched = True
             else:
                 searched = False
@@ -77,8 +99,12 @@ def main():
                 except Exception:
                     pass
     finally:
-        sh("git -C /repo checkout -- .")
-        sh("git -C /repo clean -fdq -- src")   # files a patch added
+        if iso:
+            sh("git -C /repo worktree remove --force %s/repo" % slot)
+            shutil.rmtree(slot, ignore_errors=True)
+        else:
+            sh("git -C /repo checkout -- .")
+            sh("git -C /repo clean -fdq -- src")   # files a patch added
     meta["checks"] = caught
     meta["caught_by"] = [p for p, c in caught.items() if c["violation"] and "no-failing-input-found" not in c["violation"]]
     meta["caught_by_correspondence_only"] = [p for p, c in caught.items() if c["violation"] and "no-failing-input-found" in c["violation"]]
